@@ -15,9 +15,17 @@ def plans(tier):
             dict(gens="arbitrary", variants="base", n=60000, W=2, nmax=24, bias=0.9, seed=s + 2)]
 
 
+def real_plans(tier):
+    s = vlib.seed()
+    q = tier == "quick"
+    return [dict(real=True, gens="arbitrary,spiky", variants="base", n=600 if q else 20000, seed=s + 50, where="interior,origin,far,nl"),
+            dict(real=True, sets="WebMercatorQuad,EuropeanETRS89_LAEAQuad,NZTM2000Quad,WorldMercatorWGS84Quad", gens="star", variants="base", n=60 if q else 600, seed=s + 51, where="farband"),
+            dict(real=True, sets="WebMercatorQuad,NZTM2000Quad,UPSArcticWGS84Quad,UPSAntarcticWGS84Quad,WorldMercatorWGS84Quad", gens="star,arbitrary", variants="base", n=60 if q else 600, seed=s + 52, where="interior", deep=True)]
+
+
 def run(tier):
     return snapcheck.run_snap_property(
-        PROP, tier, "SnapTrace_C06.cfg", plans(tier),
+        PROP, tier, "SnapTrace_C06.cfg", plans(tier), real_plans=real_plans(tier), real_cfg="RealTrace_C06.cfg", classify=snapcheck.classify_known(PROP),
         rule="arbitrary in-grid vertex sequences (small point pools force repetition, spikes, zig-zags; rings of 0-2 points; up to 3 rings), "
              "all flag combinations and 1-3 levels; a recorded panic or a call slower than the (loose cubic) bound is a violation")
 
